@@ -1,6 +1,7 @@
 import Mochi.Model.Broker
 import Mochi.Lemmas.Gather
 import Mochi.Lemmas.BrokerDelivery
+import Mochi.Lemmas.BrokerPublishOp
 /-!
 # C03 — Every published message reaches exactly the entitled subscribers, once each
 
@@ -378,6 +379,50 @@ example : MixedNoLocal (run (init {}) f03History) { topic := [97, 47, 98], paylo
   ⟨{ filter := [97, 47, 35], noLocal := true }, { filter := [97, 47, 98] }, ⟨by decide, by decide⟩, rfl,
     ⟨by decide, by decide⟩, rfl⟩
 
+/-! ## From the OPERATION to the recipients
+
+The theorems above speak about the call `publishToSubscribers s pk`.  The ones below speak about the op a client
+performs: `step s (.recv conn (.publish …))` (`recvOn` → `receivePacket` → `publishValidate` → `processPublish`
+→ … → `publishToSubscribers`, then `nextImmediate` and the barrier PINGREQ) and `step s (.inlinePublish …)`.
+Lemmas: `Mochi/Lemmas/BrokerPublishOp.lean` (`processPublish_accepted_shape`, `step_recv_publish_accepted`). -/
+
+/-- **Item 2 — from the op to the recipients.**  `s`: any state satisfying the three all-history invariants
+    (`SyncInv`, `WF`, `ConnMap`: every `ReachSeq` state does).  The op: client object `i`, on connection `conn`, sends
+    `PUBLISH(QoS 0, dup, retain, topic, payload, message expiry me)`, no topic alias, and the publish is accepted
+    (`AcceptedQ0`: connection alive, topic valid, receive quota, write permission, no in-flight record under id 0, no
+    publish-hook mode for the topic, the publisher has no deferred message).  No shared subscription of the index
+    matches the topic.  Then, with `pk = inboundMsg …` (origin = the publisher's client id) and `out` = everything
+    the op writes:
+
+    1. connection `n` is written a PUBLISH by the op **iff** `EntitledF03 s pk n` — entitlement in the state BEFORE
+       the op (retaining does not change it);
+    2. … iff the registered session lists a matching plain filter (`EntitledSession`);
+    3. connection `n` is written at most one PUBLISH;
+    4. every output of the op is an inline delivery of `(topic, payload)` or a copy of the message (PUBLISH, type 3,
+       the payload, QoS 0, the publisher's id as origin, dup 0, packet id 0) — nothing else: no ack, no release of a
+       deferred message, no PINGRESP in the projection, no `closed`. -/
+theorem recv_publish_delivery_exact (s : Server) (hs : SyncInv s) (hw : WF s) (hcm : ConnMap s)
+    (conn i : Nat) (dup retain : Bool) (topic payload : Str) (me : Nat)
+    (hc : assocGet s.connOf conn = some i) (h : AcceptedQ0 s i topic)
+    (hsh : (subscribers s.topics topic).shared = []) (n : Nat) :
+    ((∃ ver m mes, Out.wrote n (.publish ver m mes) ∈
+        (step s (.recv conn (.publish 0 dup retain 0 topic payload me none))).2) ↔
+      EntitledF03 s (inboundMsg s i 0 dup retain 0 topic payload me) n) ∧
+    (EntitledF03 s (inboundMsg s i 0 dup retain 0 topic payload me) n ↔
+      EntitledSession s (inboundMsg s i 0 dup retain 0 topic payload me) n) ∧
+    ((step s (.recv conn (.publish 0 dup retain 0 topic payload me none))).2.filterMap pubConn).count n ≤ 1 ∧
+    ∀ x ∈ (step s (.recv conn (.publish 0 dup retain 0 topic payload me none))).2,
+      (∃ id, x = Out.inline id topic payload) ∨ IsCopy (inboundMsg s i 0 dup retain 0 topic payload me) x := by
+  have hnh := no_hash_level topic h.valid
+  have hsh' := (retainedState_shared s (inboundMsg s i 0 dup retain 0 topic payload me) hs.idx topic h.nonempty hnh).mpr hsh
+  obtain ⟨is, iw, ic⟩ := retainedState_inv (inboundMsg s i 0 dup retain 0 topic payload me) hs hw hcm
+  rw [step_recv_publish_accepted s conn i dup retain topic payload me hc h hsh']
+  obtain ⟨h1, h2, h3, h4⟩ := C03_delivery_exact_inv_partial _ is iw ic (inboundMsg s i 0 dup retain 0 topic payload me)
+    rfl rfl (Or.inl rfl) h.nonempty hnh hsh' n
+  rw [entitledF03_retainedState] at h1 h2
+  rw [entitledSession_retainedState] at h2
+  exact ⟨h1, h2, h3, h4⟩
+
 end Mochi.Broker
 
 #print axioms Mochi.Broker.publishToSubscribers_writes_exact
@@ -390,3 +435,4 @@ end Mochi.Broker
 #print axioms Mochi.Broker.C03_delivery_sound_reach_partial
 #print axioms Mochi.Broker.C03_delivery_full_false_F03
 #print axioms Mochi.Broker.c03State_reach
+#print axioms Mochi.Broker.recv_publish_delivery_exact
